@@ -78,16 +78,6 @@ Fixpoint outer_loop (all : list hcheck) (status : list str) (strict : bool) (cs 
 Definition passing_services (checks : list hcheck) (status : list str) (strict : bool) : list hcheck :=
   outer_loop checks status strict checks.
 
-(* checksWithTagPrefix: note the prefix "_service_maintenance" without the colon and the
-   tag compared WITHOUT trimming *)
-Definition tag_kept (prefix : str) (c : hcheck) : bool :=
-  beq (c_id c) s_serfHealth || beq (c_id c) s_node_maintenance
-  || has_prefix (c_id c) s_service_maintenance
-  || existsb (fun t => has_prefix t prefix) (c_tags c).
-Definition checks_with_tag_prefix (prefix : str) (checks : list hcheck) : list hcheck :=
-  filter (tag_kept prefix) checks.
-
-(* ---- routecmd.build: which tags are route tags ---- *)
 (* strings.TrimSpace on ASCII input: \t \n \v \f \r and space *)
 Definition is_space (c : N) : bool := (c =? 32) || ((9 <=? c) && (c <=? 13)).
 Fixpoint trim_left (s : str) : str :=
@@ -97,6 +87,25 @@ Fixpoint trim_left (s : str) : str :=
   end.
 Definition trim_space (s : str) : str := rev (trim_left (rev (trim_left s))).
 
+(* checksWithTagPrefix, after the repair (fix: commit fdfd589 in /repo): the tag is trimmed
+   before the prefix test, as routecmd.build does.  Note the check-id prefix
+   "_service_maintenance" without the colon. *)
+Definition tag_kept (prefix : str) (c : hcheck) : bool :=
+  beq (c_id c) s_serfHealth || beq (c_id c) s_node_maintenance
+  || has_prefix (c_id c) s_service_maintenance
+  || existsb (fun t => has_prefix (trim_space t) prefix) (c_tags c).
+Definition checks_with_tag_prefix (prefix : str) (checks : list hcheck) : list hcheck :=
+  filter (tag_kept prefix) checks.
+(* the filter as it was before fdfd589: the tag compared WITHOUT trimming; kept for the
+   refutation theorem only *)
+Definition tag_kept_unrepaired (prefix : str) (c : hcheck) : bool :=
+  beq (c_id c) s_serfHealth || beq (c_id c) s_node_maintenance
+  || has_prefix (c_id c) s_service_maintenance
+  || existsb (fun t => has_prefix t prefix) (c_tags c).
+Definition checks_with_tag_prefix_unrepaired (prefix : str) (checks : list hcheck) : list hcheck :=
+  filter (tag_kept_unrepaired prefix) checks.
+
+(* ---- routecmd.build: which tags are route tags ---- *)
 (* the routetags list of routecmd.build; parseURLPrefixTag returns ok for every one of
    them (its only `false` returns are a missing prefix and a dead branch), so every route
    tag yields exactly one command *)
@@ -183,6 +192,11 @@ Definition watch_passing (prefix : str) (status : list str) (strict : bool) (che
 Definition svc_config (prefix : str) (status : list str) (strict : bool)
            (checks : list hcheck) (catalog : list centry) : outcome str :=
   make_config prefix catalog (watch_passing prefix status strict checks).
+(* the same round with the filter as it was before fdfd589 (refutation theorem only) *)
+Definition svc_config_unrepaired (prefix : str) (status : list str) (strict : bool)
+           (checks : list hcheck) (catalog : list centry) : outcome str :=
+  make_config prefix catalog
+    (passing_services (checks_with_tag_prefix_unrepaired prefix checks) status strict).
 
 (* ---- registry/consul/kv.go: listKV with separator = true, the text watchKV pushes for
         the manual overrides: for every key under the KV path, in the order Consul lists
